@@ -44,6 +44,7 @@ impl Bench {
             env_steps: 0,
             manual,
             keep_tx: true,
+            last_cancel_forced: false,
         }));
         Bench { sh }
     }
